@@ -13,6 +13,7 @@ Line-protocol driver for the C01 model (kv manifest / crash recovery).
   die <k>                                 the process dies; the disk is the one after the first k FS ops
   crash <k>                               observation: reopen the disk after the first k FS ops
   crashx <k>                              same, the recovery's own FS trace is not printed
+  crashf <k> <name> <thr>                 crash image of createfam: reopen + is the family present / creatable
   crashj <k> <n>                          disk after k FS ops with a partial last record in MANIFEST-n; two reopens
   enc <fid> <log> ...                     hex of editLog.marshal
   dec <hex>                               editLog.unmarshal
@@ -283,6 +284,25 @@ def step (s : DSt) (ws : List String) : DSt × String :=
       | some d => (s, crashOut s.cfg d)
       | none => (s, "bad-op")
     | none => (s, "bad-op")
+  | ["crashf", k, name, thr] =>
+    -- crash image of a CreateFamily: reopen, then the family is present, or CreateFamily(name) is retried
+    match k.toNat?, name.toNat?, thr.toInt? with
+    | some k, some nm, some t =>
+      match s.disks[k]? with
+      | some d =>
+        let (mem, ops) := openStore s.cfg d
+        let d' := applyFsList d ops
+        let probe := match mem with
+          | none => "-"
+          | some m =>
+            match m.fam? nm with
+            | some _ => "present"
+            | none => match createFamily m d' nm t with
+              | some _ => "created"
+              | none => "failed"
+        (s, crashOut s.cfg d ++ " probe=" ++ probe)
+      | none => (s, "bad-op")
+    | _, _, _ => (s, "bad-op")
   | ["crashx", k] =>
     -- like crash, without the recovery's own trace (the image was taken inside a run of table
     -- removals whose family order comes from Go map iteration)
